@@ -1105,6 +1105,32 @@ func (fr *Frame) evalCall(x *ECall, env *evalEnv) (Value, error) {
 			return nil, err
 		}
 		return intV(env.readAt("G.calls", sArr(sRef, sBV(64)), ref)), nil
+	case "ret":
+		// ret(f, k): the k-th result of the latest call made through the function value f
+		// (unconstrained on paths that never made one)
+		v, err := arg(0)
+		if err != nil {
+			return nil, err
+		}
+		sc, ok := v.(*Sc)
+		if !ok {
+			return nil, fmt.Errorf("ret of %T", v)
+		}
+		ki, ok := x.Args[1].(*EInt)
+		if !ok {
+			return nil, fmt.Errorf("ret: result index must be a literal")
+		}
+		lv, ok := fr.lastRet[sc.T]
+		if !ok {
+			return nil, fmt.Errorf("ret: no call through this function value has been executed yet")
+		}
+		if tv, ok := lv.(*TupleV); ok {
+			if int(ki.V) >= len(tv.E) {
+				return nil, fmt.Errorf("ret: no result %d", ki.V)
+			}
+			return tv.E[ki.V], nil
+		}
+		return lv, nil
 	case "has":
 		// has(m, k): key k is present in map m
 		mv, err := arg(0)
@@ -1199,6 +1225,30 @@ func (fr *Frame) evalCall(x *ECall, env *evalEnv) (Value, error) {
 			return bv(s.Tag, 16, false), nil
 		}
 		return nil, fmt.Errorf("tag of %T", v)
+	case "dyn", "as":
+		// dyn(x, T): the interface value x holds a *T (T a named type of the package);
+		// as(x, T): the *T it holds (meaningful only under dyn(x, T))
+		v, err := arg(0)
+		if err != nil {
+			return nil, err
+		}
+		iv, ok := v.(*IfaceV)
+		if !ok {
+			return nil, fmt.Errorf("%s of %T", x.Fn, v)
+		}
+		id, ok := x.Args[1].(*EIdent)
+		if !ok {
+			return nil, fmt.Errorf("%s: second argument must name a type", x.Fn)
+		}
+		tn, ok := r.eng.pkg.Members[id.Name].(*ssa.Type)
+		if !ok {
+			return nil, fmt.Errorf("%s: %s is not a type of the package", x.Fn, id.Name)
+		}
+		pt := types.NewPointer(tn.Type())
+		if x.Fn == "dyn" {
+			return boolV(eq(iv.Tag, r.tagOf(pt))), nil
+		}
+		return &Sc{T: iv.Ref, K: kRef, W: 32, Ty: pt}, nil
 	case "is":
 		a, err := arg(0)
 		if err != nil {
